@@ -14,7 +14,7 @@ def run(prop, tier, seed):
     wd = vlib.workdir(prop)
     cases, info, par = frontlib.generate(prop, tier, seed, wd)
     hcases, dropped = frontlib.to_harness(cases, {"mode": "lsp", "offsets": "all", "perquery": True, "forget": False})
-    obs, hwall = vlib.run_harness(hcases, wd, jobs=14, timeout=10)
+    obs, hwall = vlib.run_harness(hcases, wd, jobs=frontlib.JOBS, timeout=10)
     confirmed, flaky, _, w2 = frontlib.confirm_crashes(hcases, obs, wd, ("lsp",))
     hwall += w2
 
